@@ -6,5 +6,7 @@ func init() {
 		// from the shard processes, one case at a time per process because the
 		// uasc scheduling point callback is process-wide
 		{Run: "TestTimeouts", Quick: 320, Thorough: 4000, QShards: 24, TShards: 32},
+		// multi-chunk responses that are cut off (the call times out), then a complete one
+		{Run: "TestPartialResponses", Quick: 64, Thorough: 1200, QShards: 8, TShards: 16},
 	}}
 }
